@@ -162,6 +162,10 @@ def apply(op, a):
     if op == "isnull":
         return a[0] is None
     # ---- everything below: null in -> null out ----------------------------------------------
+    if op in ("/", "mod", "log") and len(a) == 2 and a[0] is None and exact(a[1]) and a[1] == 0:
+        return UNSPEC          # null / 0: "null propagates" and "division by zero is an error" both apply
+    if op in ("ln", "sqrt", "log") and any(x is None for x in a) and not all(x is None for x in a):
+        return UNSPEC if any(is_num(x) and x <= 0 for x in a) else None
     if any(x is None for x in a):
         return None
     if op in ("+", "-", "*"):
